@@ -89,12 +89,27 @@ def cases(ctx):
         yield 'hist', {'i': i}
 
 
+_mk_n = [0]
+
+
 def mk(triples, top, epi=None, meta=None):
-    """(real graph, model graph)"""
+    """(real graph, model graph); the triples are handed over in varying forms (list of tuples,
+    Triple namedtuples, lists, a generator) - the graph must be the same"""
+    from penman.graph import Triple
     ep = {}
     for t, ms in (epi or {}).items():
         ep[t] = list(ms)
-    g = Graph(list(triples), top=top, epidata=ep, metadata=meta)
+    _mk_n[0] += 1
+    form = _mk_n[0] % 4
+    if form == 1:
+        arg = [Triple(*t) for t in triples]
+    elif form == 2:
+        arg = tuple(list(t) for t in triples)
+    elif form == 3:
+        arg = (t for t in triples)
+    else:
+        arg = list(triples)
+    g = Graph(arg, top=top, epidata=ep, metadata=meta)
     m = RefGraph(triples, top, {t: tuple(canon.marker(x) for x in ms) for t, ms in (epi or {}).items()},
                  meta)
     return g, m
